@@ -11,7 +11,8 @@ import sys
 
 from .. import core
 
-PROBES = ["plss_nodir", "plss_full", "tract_build", "trs_attrs", "trs_dict", "find_twprge", "plss_qq", "trslist"]
+PROBES = ["plss_nodir", "plss_full", "tract_build", "trs_attrs", "trs_dict", "find_twprge", "plss_qq", "trslist",
+          "plss_ocrlike", "tract_bareqq"]
 MCS = [("n", "w"), ("n", "e"), ("s", "w"), ("s", "e")]
 
 
@@ -104,7 +105,7 @@ def run(ctx):
             elif nm == "use_cache":
                 ops.append(op(nm, ctx.rng.choice(["on", "off"])))
             elif nm == "parse_other":
-                ops.append(op(nm, ctx.rng.choice(["o1", "o2"])))
+                ops.append(op(nm, ctx.rng.choice(["o1", "o2", "o3", "o4"])))
             elif nm == "make_trs":
                 ops.append(op(nm, ctx.rng.choice(["k1", "k2", "kerr"])))
             elif nm == "mutate":
@@ -121,7 +122,7 @@ def run(ctx):
     ctx.notes["fresh_interpreter_references"] = len(PROBES) * len(MCS)
     ctx.rule = ("histories = %d%% seeded sample of all behaviours of spec/GlobalState.tla with %d actions ending in a probe "
                 "(MasterConfig set / restored, cache cleared / disabled / pre-warmed, other descriptions parsed, returned dicts "
-                "and lists mutated through 6 conversion paths) + random histories of 7..15 actions; reference = each of 8 probes "
+                "and lists mutated through 6 conversion paths) + random histories of 7..15 actions; reference = each of 10 probes "
                 "x 4 MasterConfig values in its own fresh interpreter; non-trivial = distinct history" % (int(keep * 100), maxops))
     ctx.assumptions += ["probe outcome = full snapshot of the parsed objects / returned values (28-bit hash)",
                         "worker processes reset MasterConfig and the TRS cache at the beginning and end of every history"]
